@@ -38,6 +38,7 @@ KANI_ALSO = {
     "c20_config_valid": ["C05"], "c20_memory_valid": ["C05"],
     "c06_is_reply_for_frontend": ["C03"], "c06_is_reply_for_backend": ["C18"],
     "c01_hdr_new_frontend": ["C04"], "c01_hdr_accessors": ["C04", "C06"],
+    "c04_update_reply_ack_flag": ["C03"],
 }
 
 STANDING_ASSUMPTIONS = [
@@ -60,7 +61,7 @@ def kani_harnesses():
             if not os.path.exists(p):
                 continue
             txt = open(p).read()
-            names = re.findall(r'\bfn\s+((?:c\d\d_)+\w+)\s*\(\s*\)', txt) + re.findall(r'(?:extract_harness|index_range)!\(\s*((?:c\d\d_)+\w+)', txt)
+            names = re.findall(r'\bfn\s+((?:c\d\d_)+\w+)\s*\(\s*\)', txt) + re.findall(r'(?:extract_harness|index_range|rank_harness)!\(\s*((?:c\d\d_)+\w+)', txt)
             for name in names:
                 props = ["C" + x for x in re.findall(r'c(\d\d)_', re.match(r'((?:c\d\d_)+)', name).group(1))]
                 props += KANI_ALSO.get(name, [])
